@@ -337,8 +337,9 @@ class Runner:
                         if seg[1] not in self.slots:
                             self.lines.append('R skip'); continue
                         ev = self.slots[seg[1]]
+                        was_done = ev.processed
                         v = env.run(until=ev)
-                        self.notes.append(('until-event', ev.processed, getattr(ev, '_ok', None), v is ev._value or v == ev._value, ev.defused, self.lab(ev)))
+                        self.notes.append(('until-event', ev.processed, getattr(ev, '_ok', None), v is ev._value or v == ev._value, ev.defused, self.lab(ev), was_done))
                     else: v = env.run()
                     self.lines.append(f'R {self.fmt_val(v)} @{self.now()}')
                 except BaseException as x:
